@@ -48,6 +48,12 @@ def jobs(tier):
                 "upfront": True})
     out.append({"name": "mgm-chain3-k3-zero-allsched", "algo": "mgm", "spec": spec("chain3", "min", pins=zero3), "ks": [3],
                 "upfront": True})
+    # a hub with three neighbours, zero tables (nobody moves), every interleaving of the deliveries to the hub: several
+    # neighbours can be one cycle ahead of the hub at the same time
+    zero_star = {"c%d_%d%d" % (k, i, j): 0 for k in range(3) for i in range(2) for j in range(2)}
+    if tier == "thorough":      # ~3 * 10^5 paths: thorough tier only
+        out.append({"name": "mgm-star3-k3-zero-hubsched", "algo": "mgm", "spec": spec("star3", "min", pins=zero_star), "ks": [3],
+                    "upfront": True, "free_targets": ["x"], "max_steps": 300, "hunt_cpu_s": 3000})
     add("mgm2", "pair", [1, 2])
     add("mgm2", "pair", [1, 2], "max")
     # MGM2 on a chain where only a coordinated move helps (tables pinned), every FIFO interleaving of the deliveries to the
